@@ -52,9 +52,34 @@ def errstate_ok(with_node: ast.With) -> bool:
 def unguarded_divisions(fn: ast.FunctionDef) -> List[ast.BinOp]:
     """Division nodes of a function that are not lexically inside np.errstate(divide/invalid ignore)."""
     out: List[ast.BinOp] = []
+    # a LOCAL function (or lambda bound to a name) runs where it is CALLED: its divisions are guarded when every call of it
+    # in the enclosing function lies inside an errstate block (and it is not handed out as a value)
+    local_fns = {n.name: n for n in ast.walk(fn) if isinstance(n, ast.FunctionDef) and n is not fn}
+    calls_guarded = {name: [] for name in local_fns}
+    escapes = set()
+
+    def scan_calls(node, guarded, inside):
+        if isinstance(node, ast.With) and errstate_ok(node):
+            guarded = True
+        if isinstance(node, ast.FunctionDef) and node is not fn:
+            inside = node.name
+        if isinstance(node, ast.Call) and isinstance(node.func, ast.Name) and node.func.id in local_fns:
+            calls_guarded[node.func.id].append(guarded or (inside is not None and inside != node.func.id and None))
+        elif isinstance(node, ast.Name) and node.id in local_fns and isinstance(node.ctx, ast.Load):
+            escapes.add(node.id)  # refined below: a Name that is the func of a Call is not an escape
+        for c in ast.iter_child_nodes(node):
+            scan_calls(c, guarded, inside)
+
+    scan_calls(fn, False, None)
+    called = {c.func.id for c in ast.walk(fn) if isinstance(c, ast.Call) and isinstance(c.func, ast.Name)}
+    n_name_loads = {name: sum(1 for x in ast.walk(fn) if isinstance(x, ast.Name) and x.id == name and isinstance(x.ctx, ast.Load)) for name in local_fns}
+    n_calls = {name: sum(1 for c in ast.walk(fn) if isinstance(c, ast.Call) and isinstance(c.func, ast.Name) and c.func.id == name) for name in local_fns}
+    safe_local = {name for name in local_fns if n_calls[name] >= 1 and n_calls[name] == n_name_loads[name] and all(g is True for g in calls_guarded[name])}
 
     def rec(node, guarded):
         if isinstance(node, ast.With) and errstate_ok(node):
+            guarded = True
+        if isinstance(node, ast.FunctionDef) and node is not fn and node.name in safe_local:
             guarded = True
         if isinstance(node, ast.BinOp) and isinstance(node.op, ast.Div) and not guarded:
             out.append(node)
